@@ -596,3 +596,23 @@ func W1S(sink Sink) {
 		}
 	}
 }
+
+// Words: spellings that other languages or other parsers accept as values and JSON does not
+// (a re-synchronisation with upstream strconv would bring in inf/nan; seeded change C13r3-m2).
+var Words = []string{"NaN", "nan", "NAN", "Inf", "inf", "+Inf", "-Inf", "Infinity", "-Infinity", "+Infinity", "infinity", "+1", "+0", "+1.5", "+.5", ".5", "-.5", "5.", "0x10", "0X1F", "0b1", "0o7", "1_000", "1e", "1e+", "1.e1",
+	"TRUE", "True", "FALSE", "False", "NULL", "Null", "None", "nil", "undefined", "yes", "no", "on", "off", "t", "f", "n", "tru", "fals", "nul", "truee", "nulll", "'a'", "`a`", "<null>", "#", "//", "/**/1"}
+
+func W1Words(sink Sink) {
+	c := &h.Case{Family: "words"}
+	pres := []string{"", " ", "[", `{"a":`, "[1,"}
+	sufs := []string{"", " ", ",", "]", "}", "1"}
+	for _, w := range Words {
+		for _, pre := range pres {
+			for _, suf := range sufs {
+				c.Input = []byte(pre + w + suf)
+				c.Desc = "non-JSON word " + w
+				sink(c)
+			}
+		}
+	}
+}
